@@ -229,7 +229,8 @@ StepRes(e) ==
     [] e.act = "RecvClean" -> RecvCleanRes(c, r, e.cp, e.proof)
     [] e.act = "SetRules"  -> SetRulesRes(c, r, e.rules)
     [] e.act = "Expire"    -> ExpireRes(c, r, e.x)
-    [] e.act \in {"ExportImport", "AdvanceTo"} -> Ok(r, {}, {})     \* genesis round trip / passing blocks: no change
+    [] e.act \in {"ExportImport", "AdvanceTo", "RegisterRelayer"} -> Ok(r, {}, {})   \* genesis round trip, passing blocks,
+                                                 \* relayer registry (Registry.tla): no change of the packet state
 
 RecvFrom(c, p) == IF p.dst = c /\ p.relay # "" THEN p.relay ELSE p.src
 AckFrom(c, p)  == IF p.src = c /\ p.relay # "" THEN p.relay ELSE p.dst
